@@ -1,4 +1,6 @@
-(* Observation commands of the version domain (C01, C02, C12-version).  Definitions only. *)
+(* Observation commands of the version domain (C01, C02, C12-version).  Definitions only.
+   The real Version._key is not among the observations: Py.key is compared with _cmpkey only through the operators' outcomes and hash equality (v.cmp, v.cmph, v.sort).
+   The model has no digit limit (finding D10): the real Version() rejects a component of more than 4300 digits. *)
 From Coq Require Import List NArith Bool String.
 Import ListNotations.
 Require Import S1 VParse VDec Py VMeaning VCmp SpecModel Canon VObsModel Show.
